@@ -19,6 +19,19 @@ func cloneInPlace(cases []*Case, judge string, limit int) []*Case {
 			continue
 		}
 		src := *c.Src // its own directory: the output is installed into it
+		if src.Raw == nil && len(src.Ifaces) > 8 {
+			// a private copy of a package with hundreds of interfaces per case makes the
+			// scratch world quadratic: keep the requested interfaces only
+			seen := map[string]bool{}
+			var keep []Iface
+			for _, it := range requested(c) {
+				if !seen[it.Name] {
+					seen[it.Name] = true
+					keep = append(keep, it)
+				}
+			}
+			src.Ifaces = keep
+		}
 		nc := &Case{Origin: c.Origin, Src: &src, Cfg: c.Cfg, Judge: []string{judge}, NoPredict: c.NoPredict, Names: nil}
 		out = append(out, nc)
 		if limit > 0 && len(out) >= limit {
@@ -34,7 +47,7 @@ func ExtraC15(tier string) func(sc *core.Scratch, ev *core.Evidence, rep *core.R
 		seed := core.Seed()
 		limit := 120
 		if tier == "thorough" {
-			limit = 0
+			limit = 800
 		}
 		var cases []*Case
 		cases = append(cases, cloneInPlace(CorpusImports(seed, tier), "C15", limit)...)
